@@ -5,6 +5,8 @@ import LoraVerif.Props.C09
 import LoraVerif.Lemmas.Ghost
 import LoraVerif.Lemmas.MacWFStep
 import LoraVerif.Lemmas.RefineCalls
+import LoraVerif.Lemmas.ChainC
+import LoraVerif.Lemmas.RefineC
 /-!
 # C10 — receive windows follow the regional parameters in force when the uplink was sent
 
@@ -25,6 +27,10 @@ import LoraVerif.Lemmas.RefineCalls
   the data rate is the one of the TxConfig) under the parameters of the state just before the event
   (`WindowsOf`: RX1DROffset, RX2 data rate and frequency, delays — join: 5 s / 6 s), and a Class C
   reception listens with that state's RX2 parameters (`send_windows`, `join_windows`, `step_windows`).
+* EXTENDED HISTORIES (`Model/HistoryC.lean`): `historyC_windows` — the same at every position of every
+  extended history, and a Class C device listens between TX and RX1 and between RX1 and RX2 on
+  `get_rxc_config` of the state the event starts in (`BetweenOf`), whatever it accepted in between;
+  `asyncC_windows` for every session of the async front-end model.
 -/
 open Model Gen.Region Spec.Regional
 
@@ -401,6 +407,201 @@ example : (run lcg (MacState.init (RegionState.init .EU868) 14 0, 1) demoHistory
     some ([[], [868300000, 868300000, 12, 869525000, 12], [868500000, 869525000, 12, 869525000, 12],
            [868300000, 869525000, 12, 869525000, 9]], 3000) := by decide +kernel
 
+/-! ## extended histories (builder M): the windows, the delays and the RXC configuration used BETWEEN the windows -/
+
+/-- **the RXC configuration of state `mi`** (`get_rxc_config`): the RX2 frequency in force in `mi` at
+the RX2 data rate in force in `mi` for `mi`'s own uplink data rate -/
+def RxcOf (mi : MacState) (rf : RfConfig) : Prop :=
+  macRxcConfig mi = .ok rf ∧ ∃ txDr d2, drOfNat mi.cfg.dataRate = .ok txDr ∧ rx2Dr mi txDr = .ok d2 ∧
+    buildRfConfig mi (rx2Freq mi) d2 txDr = .ok rf ∧ rf.frequency = rx2Freq mi
+
+theorem rxcOf_of (m : MacState) (rf : RfConfig) (hrf : macRxcConfig m = .ok rf) : RxcOf m rf := by
+  refine ⟨hrf, ?_⟩
+  unfold macRxcConfig at hrf
+  obtain ⟨txDr, htx, hrf⟩ := Except.bind_eq_ok hrf
+  unfold rx2RfConfig at hrf
+  obtain ⟨d2, hd2, hrf⟩ := Except.bind_eq_ok hrf
+  obtain ⟨dd, hdd, _⟩ := window_dr_defined m _ _ _ _ hrf
+  exact ⟨txDr, d2, htx, hd2, hrf, by rw [hdd]; rfl⟩
+
+/-- what the receive procedure started in `m1` (the state `send` / `join_otaa` left, `mi` being the
+state the event starts in) uses BETWEEN the windows: a Class C device listens on `get_rxc_config` of
+`mi` — before RX1, and again before RX2 whatever it heard and accepted before RX1 —, and the RX2 delay
+read after RX1 closed without a response is still the one of the state the frame was built in -/
+def BetweenOf (cc join : Bool) (mi m1 : MacState) (fault : Option FaultPos) (c1 : List (RxView × Int))
+    (rx1 : Option (RxView × Int)) (mp1 : Nat) : Prop :=
+  (cc = true → ∃ rf, RxcOf mi rf ∧ macRxcConfig m1 = .ok rf ∧
+    ∀ h1 ma, winC cc m1 c1 rx1 mp1 (fault == some .before1) (fault == some .close1) = .ok (some none, h1, ma) →
+      macRxcConfig ma = .ok rf) ∧
+  (∀ h1 ma, winC cc m1 c1 rx1 mp1 (fault == some .before1) (fault == some .close1) = .ok (some none, h1, ma) →
+    macRxDelay ma join true = macRxDelay m1 join true)
+
+theorem betweenOf_of (cc join : Bool) (mi m1 : MacState) (fault : Option FaultPos) (c1 : List (RxView × Int))
+    (rx1 : Option (RxView × Int)) (mp1 : Nat) (hwfi : MacWF mi) (hwf1 : MacWF m1) (hc : m1.cfg = mi.cfg)
+    (hr : m1.region.id = mi.region.id) (hc1 : csWF c1 = true) (hr1 : rxWF rx1 = true) : BetweenOf cc join mi m1 fault c1 rx1 mp1 := by
+  constructor
+  · intro _
+    obtain ⟨rf, hrf, _⟩ := macRxcConfig_tot mi hwfi
+    refine ⟨rf, rxcOf_of mi rf hrf, by rw [macRxcConfig_congr mi m1 hc hr]; exact hrf, ?_⟩
+    intro h1 ma hw
+    have hcfg := winC_none_cfg _ _ _ _ _ _ _ _ _ hw
+    have hk : Keeps m1 ma := (winC_tot cc m1 c1 rx1 mp1 _ _ hwf1 hc1 hr1).elim hw
+    rw [macRxcConfig_congr mi ma (hcfg.trans hc) (hk.2.1.trans hr)]
+    exact hrf
+  · intro h1 ma hw
+    have hcfg := winC_none_cfg _ _ _ _ _ _ _ _ _ hw
+    cases join <;> simp only [macRxDelay, hcfg]
+
+theorem macSend_cfg {σ} (g : Rng σ) (m m1 : MacState) (data : List Nat) (fport : Nat) (conf : Bool) (rs rs' : σ) (so : SendOut)
+    (h : macSend g m data fport conf rs = .ok (some so, m1, rs')) : m1.cfg = m.cfg := by
+  cases hst : m.st with
+  | joined s =>
+    obtain ⟨dr, tx, region', pw, r1, r2, _, _, _, hm1, _, _⟩ := macSend_joined g m s hst data fport conf rs rs' _ m1 h
+    rw [hm1]
+  | otaa o => rw [macSend_notJoined g m (fun s hs => by rw [hst] at hs; cases hs)] at h; cases h
+  | unjoined => rw [macSend_notJoined g m (fun s hs => by rw [hst] at hs; cases hs)] at h; cases h
+
+theorem macJoinOtaa_cfg {σ} (g : Rng σ) (m m1 : MacState) (rs rs' : σ) (jo : JoinOut)
+    (h : macJoinOtaa g m rs = .ok (jo, m1, rs')) : m1.cfg = m.cfg := by
+  obtain ⟨dr, tx, region', pw, r1, r2, _, _, hm1, _, _⟩ := macJoinOtaa_ok g m rs rs' jo m1 h
+  rw [hm1]
+
+/-- what the extended event at a position of an extended history must have handed to the radio, `mi`
+being the state before it -/
+def StepWindowsC {σ} (g : Rng σ) (mi : MacState) (rsi : σ) (ev : EvC) (out : OutC) : Prop :=
+  match ev, out.out with
+  | .base e, o => StepWindows g mi rsi e o
+  | .uplinkC cc data fport conf fault c1 rx1 _ _, .up so _ _ =>
+    ∃ tx m1 rs1, macSend g mi data fport conf rsi = .ok (some so, m1, rs1) ∧ WindowsOf mi tx so.tx ∧
+      macRxDelay m1 false false = mi.cfg.rx1Delay ∧ macRxDelay m1 false true = mi.cfg.rx1Delay + 1000 ∧
+      BetweenOf cc false mi m1 fault c1 rx1 so.tx.rx1.maxPayload.toNat
+  | .joinC cc fault c1 rx1 _ _, .join jo _ =>
+    ∃ tx m1 rs1, macJoinOtaa g mi rsi = .ok (jo, m1, rs1) ∧ WindowsOf mi tx jo.tx ∧
+      macRxDelay m1 true false = 5000 ∧ macRxDelay m1 true true = 6000 ∧
+      BetweenOf cc true mi m1 fault c1 rx1 jo.tx.rx1.maxPayload.toNat
+  | _, _ => True
+
+/-- one extended step: the windows handed to the radio, the delays, and what is used between the
+windows are those of the state the event starts in -/
+theorem stepC_windows {σ} (g : Rng σ) (m m' : MacState) (rs rs' : σ) (ev : EvC) (out : OutC) (hwf : MacWF m)
+    (hv : validEvC m.region.id ev = true) (h : stepC g (m, rs) ev = .ok ((m', rs'), out)) : StepWindowsC g m rs ev out := by
+  cases ev with
+  | base e =>
+    obtain ⟨hs, _⟩ := stepC_base g _ _ e out h
+    exact step_windows g m m' rs rs' e out.out hwf hs
+  | uplinkC cc data fport conf fault c1 rx1 c2 rx2 =>
+    simp only [validEvC, Bool.and_eq_true, Bool.or_eq_true, bne_iff_ne, ne_eq, List.isEmpty_iff, decide_eq_true_eq] at hv
+    obtain ⟨⟨⟨⟨⟨h0, hlen⟩, hc1⟩, hr1⟩, hc2⟩, hr2⟩ := hv
+    unfold stepC at h
+    simp only at h
+    obtain ⟨⟨o, m1, rs1⟩, hsend, h⟩ := Except.bind_eq_ok h
+    cases o with
+    | none =>
+      simp only [pure, Except.pure, Except.ok.injEq, Prod.mk.injEq] at h
+      rw [← h.2]; trivial
+    | some so =>
+      obtain ⟨tx, hw, d1, d2⟩ := send_windows g m m1 hwf data fport conf rs rs1 so hsend
+      have hk1 : Keeps m m1 := (macSend_safe g m data fport conf rs hwf
+        (fun e => by rcases h0 with h0 | h0; exact absurd e h0; exact h0) hlen).elim hsend
+      have hb := betweenOf_of cc false m m1 fault c1 rx1 so.tx.rx1.maxPayload.toNat hwf hk1.1
+        (macSend_cfg g m m1 data fport conf rs rs1 so hsend) hk1.2.1 hc1 hr1
+      simp only at h
+      obtain ⟨⟨fin, hd, m2⟩, _, h⟩ := Except.bind_eq_ok h
+      cases fin <;>
+        (simp only [pure, Except.pure, Except.ok.injEq, Prod.mk.injEq] at h
+         rw [← h.2]
+         exact ⟨tx, m1, rs1, hsend, hw, d1, d2, hb⟩)
+  | joinC cc fault c1 rx1 c2 rx2 =>
+    simp only [validEvC, Bool.and_eq_true] at hv
+    obtain ⟨⟨⟨hc1, hr1⟩, hc2⟩, hr2⟩ := hv
+    unfold stepC at h
+    simp only at h
+    obtain ⟨⟨jo, m1, rs1⟩, hj, h⟩ := Except.bind_eq_ok h
+    obtain ⟨tx, hw, d1, d2⟩ := join_windows g m m1 hwf rs rs1 jo hj
+    have hk1 : Keeps m m1 := (macJoinOtaa_safe g m rs hwf).elim hj
+    have hb := betweenOf_of cc true m m1 fault c1 rx1 jo.tx.rx1.maxPayload.toNat hwf hk1.1
+      (macJoinOtaa_cfg g m m1 rs rs1 jo hj) hk1.2.1 hc1 hr1
+    simp only at h
+    obtain ⟨⟨fin, hd, m2⟩, _, h⟩ := Except.bind_eq_ok h
+    cases fin <;>
+      (simp only [pure, Except.pure, Except.ok.injEq, Prod.mk.injEq] at h
+       rw [← h.2]
+       exact ⟨tx, m1, rs1, hj, hw, d1, d2, hb⟩)
+
+/-- **C10 over every EXTENDED history.**  Take any extended history (Class C receptions inside the
+receive procedure included) of valid events from a well-formed state, any random stream, and ANY
+position `i` of it.  With `mi` the state the history reached just before event `i`: `send` / `join` +
+receive procedure hands the radio the TxConfig of the channel selected and RX1/RX2 configurations that
+are exactly those of that channel and data rate under `mi`'s parameters (`WindowsOf`, as for plain
+histories), with `mi`'s RX1 delay and + 1 s (join: 5 s / 6 s) — and that RX2 delay is still what the MAC
+answers after RX1 closed without a response, whatever was heard and accepted on the RXC parameters
+before; a Class C device listens between TX and RX1, and again between RX1 and RX2, on `get_rxc_config`
+of `mi` (`RxcOf`: `mi`'s RX2 frequency and data rate; the annotation of the event is that
+configuration's payload limit) — although frames accepted there have moved the counters in between.  Events of
+`Model/History.lean` as in `history_windows`. -/
+theorem historyC_windows {σ} (g : Rng σ) (m : MacState) (rs : σ) (hwf : MacWF m) (evs : List EvC)
+    (hv : ∀ ev ∈ evs, validEvC m.region.id ev = true) (ms' : MacState × σ) (outs : List OutC)
+    (h : runC g (m, rs) evs = .ok (ms', outs)) (i : Nat) (ev : EvL) (out : OutC)
+    (hi : ((annotC g (m, rs) evs).zip outs)[i]? = some (ev, out)) :
+    ∃ mi rsi, ChainC g (m, rs) (((annotC g (m, rs) evs).zip outs).take i) (mi, rsi) ∧ MacWF mi ∧ mi.region.id = m.region.id ∧
+      ev.1 = rxcMp mi ∧ StepWindowsC g mi rsi ev.2 out := by
+  have hc := runC_chain g (m, rs) ms' evs outs h
+  obtain ⟨⟨mi, rsi⟩, ⟨mi', rsi'⟩, h1, hmp, hstep, _⟩ := chainC_at g (m, rs) ms' _ i ev out hc hi
+  have hvz : ∀ x ∈ (annotC g (m, rs) evs).zip outs, validEvC m.region.id x.1.2 = true :=
+    fun x hx => hv _ (mem_annot_zip g _ evs outs x hx)
+  obtain ⟨hwfi, hidi⟩ := chainC_wf g (m, rs) (mi, rsi) _ hwf (fun x hx => hvz x (List.mem_of_mem_take hx)) h1
+  simp only at hwfi hidi
+  refine ⟨mi, rsi, h1, hwfi, hidi, hmp, stepC_windows g mi mi' rsi rsi' ev.2 out hwfi ?_ hstep⟩
+  rw [hidi]
+  exact hvz _ (List.mem_of_getElem? hi)
+
+/-- **C10 on the async front-end, for EVERY script, both classes**: a session of the async front-end
+model that returns is a run of the extended history of its calls (same final MAC state and generator
+state, the front-end's answers and transmitted frames call by call), and `StepWindowsC` holds at every
+position of it.  (`async_send_windows` / `async_join_windows` read the radio and timer CALLS of one
+`send` / `join` off the script; this is the statement along whole sessions.) -/
+theorem asyncC_windows {σ} (g : Rng σ) (cfg : DevCfg) (d : DevRun) (rs : σ) (hwf : MacWF d.m)
+    (ops : List AsyncOp) (hv : ∀ op ∈ ops, op.valid d.m.region.id = true)
+    (obs : List OpObs) (d' : DevRun) (rs' : σ) (h : asyncOps g cfg d rs ops = .ok (obs, d', rs')) :
+    ∃ outs, runC g (d.m, rs) (abstractSessionC cfg ops) = .ok ((d'.m, rs'), outs) ∧ AllRel ObsRel obs outs ∧
+      ∀ (i : Nat) (ev : EvL) (out : OutC), ((annotC g (d.m, rs) (abstractSessionC cfg ops)).zip outs)[i]? = some (ev, out) →
+        ∃ mi rsi, ChainC g (d.m, rs) (((annotC g (d.m, rs) (abstractSessionC cfg ops)).zip outs).take i) (mi, rsi) ∧ MacWF mi ∧
+          mi.region.id = d.m.region.id ∧ ev.1 = rxcMp mi ∧ StepWindowsC g mi rsi ev.2 out := by
+  obtain ⟨outs, hrun, hobs⟩ := asyncOps_runC g cfg d rs ops obs d' rs' h
+  refine ⟨outs, hrun, hobs, fun i ev out hi => ?_⟩
+  refine historyC_windows g d.m rs hwf _ ?_ _ outs hrun i ev out hi
+  intro e he
+  obtain ⟨op, hop, rfl⟩ := List.mem_map.mp he
+  exact abstractOp_valid cfg _ op (hv op hop)
+
+
+/-! non-vacuity over extended histories: a Class C device.  Procedure 1: a frame accepted on the RXC
+parameters between TX and RX1, then RXParamSetupReq (RX2 → DR3, RX1DROffset 2) + RXTimingSetupReq (3 s)
+accepted in RX1.  Procedure 2 opens RX2 at SF9 and listens between the windows with the NEW RXC
+configuration (payload limit 123 instead of 59), where it accepts another frame; then a join procedure
+that hears frames on the RXC parameters.  Procedure 1 itself — built before the commands arrived —
+has RX2 at SF12 and RXC limit 59. -/
+def dlC (w : Nat) : RxView × Int :=
+  (.data { len := 14, confirmed := false, fcnt16 := w, micFcnt := some w, fopts := [], fport := some 1, payload := [w] }, 5)
+
+def demoHistoryC : List EvC :=
+  [ .base (.joinAbp 7 1 2),
+    .uplinkC true [1] 1 false none [dlC 1] (dl 2 [0x05, 0x23, 0xD2, 0xAD, 0x84, 0x08, 0x03]) [] none,
+    .uplinkC true [2] 1 false none [] none [dlC 3] none,
+    .joinC true none [dlC 9] none [(.garbage, 0)] none ]
+
+def winOfC (o : OutC) : List Int :=
+  match o.out with
+  | .join jo _ => [jo.tx.rf.frequency, jo.tx.rx1.frequency, jo.tx.rx1.sf, jo.tx.rx2.frequency, jo.tx.rx2.sf]
+  | oo => winOf oo
+
+example : ∀ ev ∈ demoHistoryC, validEvC .EU868 ev = true := by decide
+example : (runC lcg (MacState.init (RegionState.init .EU868) 14 0, 1) demoHistoryC).toOption.map
+      (fun r => (r.2.map winOfC, r.2.map (fun o => o.heard.length), r.1.1.cfg.rx1Delay)) =
+    some ([[], [868300000, 868300000, 12, 869525000, 12], [868500000, 868500000, 12, 869525000, 9],
+           [868100000, 868100000, 12, 869525000, 9]], [0, 2, 1, 0], 3000) := by decide +kernel
+example : limitsC lcg (MacState.init (RegionState.init .EU868) 14 0, 1) demoHistoryC = [59, 59, 123, 123] := by decide +kernel
+
 /-! ## the device front-ends open the windows the MAC computed at TX time, for every script
 
 `Lemmas/RefineCalls.lean` reads the radio and timer calls of the async front-end model off ANY
@@ -549,3 +750,6 @@ end C10
 #print axioms C10.step_windows
 #print axioms C10.chain_wf
 #print axioms C10.history_windows
+#print axioms C10.stepC_windows
+#print axioms C10.historyC_windows
+#print axioms C10.asyncC_windows
